@@ -43,6 +43,7 @@ pub fn cells(tier: Tier) -> Vec<CellPlan> {
         EvOp::EmitS(SK::T1, Mode::Except(1), None),
         EvOp::TouchConnection(0),
         EvOp::ConnectSlowly(2),
+        EvOp::Burst(0),
     ];
     c.rounds = if q { 3 } else { 4 };
     v.push(plan(c.clone(), if q { 1 } else { 1 }, 3.0));
